@@ -263,20 +263,23 @@ example : compareValues (.text [97]) (.int 1) = cmp (.text [97]) (.int 1) := rfl
 /-! ## NEW (review gap 5): array_unique
 
 `uniqueValues xs` (Model/Eval.lean: fold of `insertUnique` into an ascending list = `BTreeSet::from_iter(xs)
-.into_iter()`; an insert of a value equal to a member keeps the member) — the function `array_unique` executes. It
-uses the derived order `Value.cmp`; its equality `cmp = Equal` is `==` (`cmp_eq_iff_eq`). -/
+.into_iter()`; an insert of a value equal to a member REPLACES the member: std collects, sorts stably and keeps the later
+of two equal neighbours) — the function `array_unique` executes. It uses the derived order `Value.cmp`; its equality
+`cmp = Equal` is `==` (`cmp_eq_iff_eq`). (The first version of the model kept the FIRST of equal values; the
+`array_unique` stream of the C16 check — arrays holding `-0.0` and `0.0`, NaNs of different payloads — showed the
+implementation keeps the last, and the model and these theorems were corrected.) -/
 
-/-- **what array_unique returns**: the result is strictly ascending in the order (SORTED order, not first-occurrence
-order; hence no two results are equal), and its members are exactly the FIRST occurrences of the equality classes
-of the input — `v` is returned iff `v` stands in `xs` at a position before which no value `==`-equal to `v` stands.
-So of `[0.0, -0.0]` the `0.0` is kept, of `[-0.0, 0.0]` the `-0.0`. A strictly ascending list is determined by its
+/-- **what array_unique returns**: the result is strictly ascending in the order (SORTED order, not occurrence
+order; hence no two results are equal), and its members are exactly the LAST occurrences of the equality classes
+of the input — `v` is returned iff `v` stands in `xs` at a position after which no value `==`-equal to `v` stands.
+So of `[0.0, -0.0]` the `-0.0` is kept, of `[-0.0, 0.0]` the `0.0`. A strictly ascending list is determined by its
 members, so this characterises the result completely. -/
 theorem array_unique_characterisation (xs : List Value) :
     (uniqueValues xs).Pairwise (fun a b => cmp a b = .lt) ∧
-    ∀ v, v ∈ uniqueValues xs ↔ ∃ pre post, xs = pre ++ v :: post ∧ ∀ u ∈ pre, beq u v = false := by
+    ∀ v, v ∈ uniqueValues xs ↔ ∃ pre post, xs = pre ++ v :: post ∧ ∀ u ∈ post, beq u v = false := by
   refine ⟨Unique.sorted_uniqueValues xs, fun v => ?_⟩
   rw [Unique.mem_uniqueValues_iff]
-  unfold Unique.FirstOcc
+  unfold Unique.LastOcc
   constructor
   · rintro ⟨pre, post, h, hp⟩
     refine ⟨pre, post, h, fun u hu => ?_⟩
@@ -288,7 +291,7 @@ theorem array_unique_characterisation (xs : List Value) :
     rw [Ne, cmp_eq_iff_beq, hp u hu]; simp
 
 /-- **any two values deduplicated are equal, and only equal values are**: every input value is represented in the
-result by exactly one member, which is `==`-equal to it (the earliest equal input value); consequently two input
+result by exactly one member, which is `==`-equal to it (the latest equal input value); consequently two input
 values share their representative iff they are equal — as for groups (`grouped_are_equal`, here on one-element
 keys: `cmpList [u] [x] = Equal`). -/
 theorem array_unique_merges_exactly_equal_values (xs : List Value) (x : Value) (hx : x ∈ xs) :
@@ -296,7 +299,7 @@ theorem array_unique_merges_exactly_equal_values (xs : List Value) (x : Value) (
     (∀ u w, u ∈ uniqueValues xs → w ∈ uniqueValues xs → beq u x = true → beq w x = true → u = w) ∧
     (∀ y u, y ∈ xs → u ∈ uniqueValues xs → beq u x = true → (beq u y = true ↔ beq x y = true)) := by
   refine ⟨?_, ?_, ?_⟩
-  · obtain ⟨u, hu, hf⟩ := Unique.exists_firstOcc xs x hx
+  · obtain ⟨u, hu, hf⟩ := Unique.exists_lastOcc xs x hx
     refine ⟨u, (Unique.mem_uniqueValues_iff xs u).2 hf, (cmp_eq_iff_beq u x).1 hu, ?_⟩
     simp [cmpList, hu, Ordering.then]
   · intro u w hu hw hux hwx
@@ -316,11 +319,12 @@ theorem array_unique_members_are_inputs (xs : List Value) (v : Value) (h : v ∈
   obtain ⟨pre, post, hx, _⟩ := (Unique.mem_uniqueValues_iff xs v).1 h
   rw [hx]; simp
 
--- non-vacuity: sorted output, first of equal values kept (-0.0 before 0.0; NaN payloads), INT/REAL not merged (D45)
+-- non-vacuity: sorted output, last of equal values kept (-0.0 / 0.0; NaN payloads), INT/REAL not merged (D45)
 example : uniqueValues [.int 3, .int 1, .int 3, .int 2] = [.int 1, .int 2, .int 3] := rfl
 example : Value.int 3 ∈ [Value.int 3, .int 1, .int 3, .int 2] := List.mem_cons_self
-example : uniqueValues [negZero, posZero, one, posZero] = [negZero, one] ∧ uniqueValues [posZero, negZero] = [posZero] := ⟨rfl, rfl⟩
-example : uniqueValues [.real 0x7ff8000000000001, nan, one] = [one, .real 0x7ff8000000000001] := rfl
+example : uniqueValues [negZero, posZero, one, posZero] = [posZero, one] ∧ uniqueValues [posZero, negZero] = [negZero] ∧
+    uniqueValues [posZero, negZero, posZero, negZero] = [negZero] := ⟨rfl, rfl, rfl⟩
+example : uniqueValues [.real 0x7ff8000000000001, nan, one] = [one, nan] := rfl
 example : uniqueValues [.text [98], .text [97], .text [98]] = [.text [97], .text [98]] := rfl
 
 /-- KNOWN FINDING D45 (kept as a kernel-checked witness): in the *derived* order, used for GROUP BY
